@@ -497,9 +497,13 @@ pub fn execute(v: &Value) -> RunReport {
                 (None, b) => match std::str::from_utf8(&bytes) {
                     Ok(s) => {
                         let at_yields = sc.gc_at_yields;
+                        // (at most 2000 collections per entry: a runaway loop that allocates and yields
+                        // every other instruction would otherwise cost heap x yields collector work)
+                        let mut ycol = 0u32;
                         let (r, y) = js::eval_budgeted(ctx, s, b, 3_000_000, |n| {
-                            if at_yields && n % 4 == 0 {
+                            if at_yields && n % 4 == 0 && ycol < 2000 {
                                 boa_gc::verif::collect_now();
+                                ycol += 1;
                             }
                         });
                         rep.fault("yield", y);
@@ -635,7 +639,7 @@ pub const PROP: Prop = Prop {
     generate,
     execute,
     shrink,
-    rule: "one run = a history of 1..6 (quick) / 1..30 (thorough) entries on a reused or fresh context; each entry = an input (kernel, harvested snippet, litmus or sabotage program, one of 48 hand-written syntax / boundary-argument corner snippets, or a token-level mutant of two of them: delete / duplicate / swap / splice / truncate / bracket nesting up to 64 / grammar spice, occasionally byte damage giving invalid UTF-8; 1 in 8 as UTF-16 code units with unpaired surrogates inserted, appended or left by a cut pair) fed through Source::from_bytes, Source::from_utf16 or the string argument of eval / Function, a faulty io::Read (1..64-byte reads, EINTR, hard error at byte k, EOF inside a sequence), budgeted evaluation or module evaluation through the simulated loader (latency, fetch / parse fault), under a seeded swarm of faults: limit triples with tiny values, collection at every k-th allocation (k=1 included) and at yields, refused string compilation, buffer cap; non-trivial = at least one fault fired; distinct = distinct (history length, reuse, schedule, sequence of outcome kinds). The byte-string axis of the property is sampled by a plain seeded generator without coverage guidance: the simulator contributes the fault and history axis, not a better input search.",
+    rule: "one run = a history of 1..6 (quick) / 1..30 (thorough) entries on a reused or fresh context; each entry = an input (kernel, harvested snippet, litmus or sabotage program, one of 49 hand-written syntax / boundary-argument corner snippets, or a token-level mutant of two of them: delete / duplicate / swap / splice / truncate / bracket nesting up to 64 / grammar spice, occasionally byte damage giving invalid UTF-8; 1 in 8 as UTF-16 code units with unpaired surrogates inserted, appended or left by a cut pair) fed through Source::from_bytes, Source::from_utf16 or the string argument of eval / Function, a faulty io::Read (1..64-byte reads, EINTR, hard error at byte k, EOF inside a sequence), budgeted evaluation or module evaluation through the simulated loader (latency, fetch / parse fault), under a seeded swarm of faults: limit triples with tiny values, collection at every k-th allocation (k=1 included) and at yields, refused string compilation, buffer cap; non-trivial = at least one fault fired; distinct = distinct (history length, reuse, schedule, sequence of outcome kinds). The byte-string axis of the property is sampled by a plain seeded generator without coverage guidance: the simulator contributes the fault and history axis, not a better input search.",
     real: &["lexer/parser/compiler/VM/builtins", "boa_gc", "SimpleJobExecutor", "module loading through the ModuleLoader seam"],
     stub: &["FaultyReader (io::Read)", "SimLoader", "SimHooks (deny compile, buffer cap)", "collection trigger decision (hook H1)"],
     assumptions: &[
